@@ -24,7 +24,7 @@ RULE = ("generated float/int arrays of 1-4 dims (finite dyadic values), numeric 
         "two nodes or outside the range, on an axis that is not stored increasing or is not the first dimension.")
 ASSUMPTIONS = [
     "oracle: y0 + (x-x0)*(y1-y0)/(x1-x0) on the sorted fibre, compared with rtol=atol=1e-12, cross-checked against np.interp",
-    "labels and values are dyadic rationals; data may contain NaN (a node keeps its value, an interval next to a NaN is NaN) but no infinities",
+    "labels and values are dyadic rationals; data may contain NaN (a node keeps its value, an interval next to a NaN is NaN) and infinities (numpy.interp semantics: from the left node, else from the right node, else the common node value)",
 ]
 MANDATORY = ["data:nan", "point:between", "point:below", "point:above", "point:on-node", "axis:size-1", "axis:shuf", "axis:dec", "axis:not-first", "ndim:1", "ndim>=2",
              "fill:left-finite", "fill:right-finite", "new:unsorted", "new:empty", "issorted:True", "like", "dataset", "vk:i"]
@@ -64,6 +64,9 @@ def case_st(draw):
         # missing values in the data: a node keeps its own value whatever its neighbours are; an interval next to a NaN is NaN
         for j in draw(st.lists(st.integers(0, ncell - 1), min_size=1, max_size=max(1, ncell // 3), unique=True)):
             vals[j] = "NaN"
+    elif vk == "f" and draw(st.integers(0, 5)) == 0:
+        for j in draw(st.lists(st.integers(0, ncell - 1), min_size=1, max_size=2, unique=True)):
+            vals[j] = draw(st.sampled_from(["inf", "-inf"]))
     spec = {"dims": dims, "labels": labels, "vk": vk, "vals": vals, "attrs": {"units": "K", "h": [1]}}
     case = {"mode": mode, "spec": spec, "ax": ax, "axis_form": draw(st.sampled_from(["name", "pos"])), "new": draw(points(labels[ax])),
             "left": draw(st.sampled_from(["nan", "nan", -77.0])), "right": draw(st.sampled_from(["nan", "nan", 88.0])),
@@ -111,7 +114,17 @@ def interp1(pairs, x, left, right):
         if x == x0:
             return float(y0)
         if x0 < x < x1:
-            return float(y0) + (x - x0) * (float(y1) - float(y0)) / (x1 - x0)
+            # numpy.interp's definition, including its treatment of infinite node values: evaluated from the left
+            # node, from the right node if that gives NaN, and equal to the node value if both nodes hold the same value
+            y0, y1 = float(y0), float(y1)
+            with np.errstate(all="ignore"):
+                slope = np.float64(y1 - y0) / np.float64(x1 - x0)
+                r = float(slope * (x - x0) + y0)
+                if r != r:
+                    r = float(slope * (x - x1) + y1)
+                    if r != r and y0 == y1:
+                        r = y0
+            return r
     return float(pairs[-1][1])   # x == last node
 
 
